@@ -74,7 +74,7 @@ def build_scaled(shape, count):
 
 def scale_scenarios(prop, quick):
     scen = []
-    base = 3000 if quick else 8000
+    base = 16000
     for shape, (fid, prefix, parts) in SHAPES.items():
         steps = [{"op": "decode", "ty": "Big", "in": build_scaled(shape, n), "dest": "fresh"} for n in (0, 1, 3)]   # checked byte by byte
         steps.append({"op": "scale", "ty": "Big", "shape": shape, "prefix": prefix, "elem": parts, "suffix": [0], "counts": [base, base * 4, base * 16]})
